@@ -246,7 +246,12 @@ pub struct Template {
     /// determine the end of the current template record and the start of the next.
     pub field_count: u16,
     /// Template Fields.
-    #[nom(Count = "field_count")]
+    // Checked against the input first: nom's `count` reserves room for the announced
+    // number of fields (up to 64 KiB) before it has seen a single one.
+    #[nom(
+        ErrorIf = "usize::from(field_count) * 4 > i.len()",
+        Count = "field_count"
+    )]
     pub fields: Vec<TemplateField>,
 }
 
@@ -259,10 +264,16 @@ pub struct OptionsTemplate {
     /// This field gives the length (in bytes) of any Options field definitions that are contained in this options template
     pub options_length: u16,
     /// Options Scope Fields
-    #[nom(Count = "(options_scope_length / 4) as usize")]
+    #[nom(
+        ErrorIf = "usize::from(options_scope_length / 4) * 4 > i.len()",
+        Count = "(options_scope_length / 4) as usize"
+    )]
     pub scope_fields: Vec<OptionsTemplateScopeField>,
     /// Options Fields
-    #[nom(Count = "(options_length / 4) as usize")]
+    #[nom(
+        ErrorIf = "usize::from(options_length / 4) * 4 > i.len()",
+        Count = "(options_length / 4) as usize"
+    )]
     pub option_fields: Vec<TemplateField>,
 }
 
